@@ -412,7 +412,8 @@ fn main() {
             let rf = if rng.chance(1, 6) { 2 } else { 1 };
             let mut ops = vec![];
             for _ in 0..rng.usize(9) {
-                let id = 1 + rng.below(if rng.chance(1, 10) { 6 } else { 5 });
+                let span = if rng.chance(1, 10) { 6 } else { 5 };
+                let id = 1 + rng.below(span);
                 ops.push(match rng.below(12) {
                     0..=3 => Op::Add(id, rng.chance(2, 3)),
                     4..=5 => Op::Remove(id),
